@@ -14,6 +14,6 @@ for d in sorted(glob.glob('/verif/seeded/*/')):
 table = "| seed | change | needs, to manifest | detected as |\n|---|---|---|---|\n" + "\n".join(rows) + "\n"
 p = '/verif/DESIGN.md'
 t = open(p).read()
-t = re.sub(r"<!-- SEED-TABLE-BEGIN -->.*<!-- SEED-TABLE-END -->", "<!-- SEED-TABLE-BEGIN -->\n" + table + "<!-- SEED-TABLE-END -->", t, flags=re.S)
+t = re.sub(r"<!-- SEED-TABLE-BEGIN -->.*<!-- SEED-TABLE-END -->", lambda _m: "<!-- SEED-TABLE-BEGIN -->\n" + table + "<!-- SEED-TABLE-END -->", t, flags=re.S)
 open(p, 'w').write(t)
 print(len(rows), "rows")
